@@ -126,6 +126,19 @@ CHECKS['C09'] = dict(
          'the proposal transformation and its kind, the counter/reset logic, the exact stop and the returned configuration.',
     note='Trusted: z3; stubs for Chi2Calculator (C08), move_mol_atom (C07) and progress output; 0.01 enters as its binary64 value; energies > 0.',
     design='3/C09', technique=SYMX + '; randomness as symbolic input; bounded unrolling of the loop')
+CHECKS['C05'] = dict(
+    text='Real Manager (constructor, add_end_molecules, calculate_exchange_maps, extrapolate_system) with real Alignment/ExchangeMap objects around a stand-in system '
+         'yielding real Molecules with symbolic coordinates; species per slot and the subset of species with an end molecule are symbolic integers; writer replaced '
+         'by a recorder.  Per path: exactly the mapped molecules in input order, numbering 1..N, residue numbers of the input, coordinates equal to the species map '
+         'applied to the molecule (SMT / term identity), title and box forwarded, SystemError and no file when a map is missing.',
+    note='Trusted: z3; frame construction replaced by a functional contract stub (its real behaviour is C01/C02/C17); the coordinate format precision and re-reading are C13/C14.',
+    design='3/C05', technique=SYMX + '; symbolic composition integers; recording writer')
+CHECKS['C20'] = dict(
+    text='(a) real sort_molecules / classify_files on generated candidate files with every set of the module iterating in a symbolic permutation order (all orders a hash seed '
+         'could produce): same, intended assignment on every path, no failure, explicit species not re-added; (b) real auto_map against recording stand-ins with an opaque '
+         'symbolic scale: call trace = library workflow and default output path.  The byte equality of CLI and library output for a seed is outside the technique.',
+    note='Trusted: z3 for the enumeration of permutation indices; the recorders stand for Manager / Molecule.from_files / read_topology (their behaviour is C05, C11, C15).',
+    design='3/C20 and section 5', technique=FORK + '; symbolic set iteration order; call-trace equality against recording stubs')
 NOT_YET = {}
 def main():
     props = [json.loads(l) for l in open(os.path.join(HERE, 'properties.jsonl'))]
